@@ -154,14 +154,33 @@ def impl_dump_for_tree(case):
             o.add(*op)
         except EXC:
             pass
-    buf = io.StringIO()
+
+    def dump(base):
+        buf = io.StringIO()
+        o.dump_for_tree(buf, case["variant"], case["arch"], base)
+        return json.loads(buf.getvalue())
+
+    before = copy.deepcopy(state())
     try:
-        o.dump_for_tree(buf, case["variant"], case["arch"], case["base"])
+        doc = dump(case["base"])
     except EXC as e:
         return exc_result(e)
-    doc = json.loads(buf.getvalue())
     if doc.get("header") != {"version": "1.0"}:
         return ["bad-header", doc.get("header")]
+    # writing a per-tree file is a read-only operation on the manifest: the mapping is what the add calls made it, and the
+    # same call gives the same file again, whatever other base paths were used in between
+    if state() != before:
+        return ["dump-changed-manifest", before, copy.deepcopy(state())]
+    try:
+        for other in case.get("others", ["", "Server", "Server/x86_64/os"]):
+            dump(other)
+        again = dump(case["base"])
+    except EXC as e:
+        return ["dump-not-repeatable", exc_result(e)]
+    if again != doc:
+        return ["dump-not-repeatable", doc["data"], again["data"]]
+    if state() != before:
+        return ["dump-changed-manifest", before, copy.deepcopy(state())]
     return ["ok", doc["data"]]
 
 
